@@ -18,8 +18,15 @@ WHITELIST = {
     "geoh5py/ui_json/utils.py": ["truth", "is_form", "collect", "find_all", "group_optional", "group_enabled",
                                  "optional_requires_value", "dependency_requires_value", "group_requires_value",
                                  "requires_value", "flatten", "str2inf"],
-    "geoh5py/shared/utils.py": ["is_uuid", "str2uuid", "as_str_if_uuid", "inf2str", "none2str", "nan2str", "str2none"],
+    "geoh5py/shared/utils.py": ["is_uuid", "str2uuid", "as_str_if_uuid", "inf2str", "none2str", "nan2str", "str2none", "entity2uuid"],
 }
+# mapper lists: (file, class or None, function) -> Lean name; the list literal assigned to `mappers` is extracted
+MAPPER_LISTS = [
+    ("geoh5py/shared/utils.py", None, "stringify", "stringifyMappers"),
+    ("geoh5py/ui_json/input_file.py", "InputFile", "numify", "numifyMappers"),
+    ("geoh5py/ui_json/input_file.py", "InputFile", "demote", "demoteMappers"),
+]
+HAND_MAPPERS = {"path2workspace", "workspace2path", "container_group2name"}   # hand models in Model/Py.lean
 EXC = {"ValueError": ".valueError", "KeyError": ".keyError", "TypeError": ".typeError", "AttributeError": ".attributeError",
        "IndexError": ".indexError"}
 
@@ -72,6 +79,8 @@ class Fn:
             raise Unsupported("list literal")
         if isinstance(n, ast.Subscript):
             return f"(bind2 getItem {self.e(n.value)} {self.e(n.slice)})"
+        if isinstance(n, ast.Attribute) and n.attr == "uid":
+            return f"(bind1 getUid {self.e(n.value)})"
         if isinstance(n, ast.IfExp):
             return f"(iteM {self.c(n.test)} (fun _ => {self.e(n.body)}) (fun _ => {self.e(n.orelse)}))"
         if isinstance(n, ast.BinOp) and isinstance(n.op, ast.BitAnd):
@@ -130,7 +139,7 @@ class Fn:
                     args.append(self.e(dflt))
                 combinator = {1: "bind1", 2: "bind2", 3: "bind3"}[nargs]
                 return f"({combinator} {f.id} {' '.join(args)})"
-            if f.id in ("isinstance", "all"):
+            if f.id in ("isinstance", "all", "hasattr"):
                 return f"(ofBool {self.c(n)})"
         raise Unsupported("call " + ast.unparse(n)[:40])
 
@@ -168,7 +177,7 @@ class Fn:
             raise Unsupported("compare " + ast.unparse(n)[:40])
         if isinstance(n, ast.Call) and isinstance(n.func, ast.Name) and n.func.id == "isinstance":
             t = ast.unparse(n.args[1]).replace(" ", "")
-            pred = {"dict": "isDict", "str": "isStr", "list": "isList", "(int,float)": "isNumber", "UUID": "isUuid",
+            pred = {"dict": "isDict", "str": "isStr", "list": "isList", "(int,float)": "isNumber", "float": "isFloat", "(str,UUID)": "isStrOrUuid", "UUID": "isUuid",
                     "bytes": "(fun _ => false)"}.get(t)
             if pred is None:
                 raise Unsupported("isinstance " + t)
@@ -186,6 +195,9 @@ class Fn:
             raise Unsupported("all(...)")
         if isinstance(n, ast.Call) and isinstance(n.func, ast.Attribute) and n.func.attr == "isfinite":
             return f"(map1 isFinite {self.e(n.args[0])})"
+        if isinstance(n, ast.Call) and isinstance(n.func, ast.Name) and n.func.id == "hasattr" and len(n.args) == 2 \
+                and isinstance(n.args[1], ast.Constant) and n.args[1].value == "uid":
+            return f"(map1 hasUid {self.e(n.args[0])})"
         # any other expression used as a condition: Python truthiness
         return f"(asBool {self.e(n)})"
 
@@ -264,6 +276,24 @@ class Fn:
         return "\n".join(lines)
 
 
+def mapper_list(path: Path, cls, fn):
+    """names in the list literal assigned to `mappers` inside the given function (None if not found / not plain names)"""
+    tree = ast.parse(path.read_text())
+    scope = tree.body
+    if cls is not None:
+        scope = next((n.body for n in tree.body if isinstance(n, ast.ClassDef) and n.name == cls), [])
+    fd = next((n for n in scope if isinstance(n, ast.FunctionDef) and n.name == fn), None)
+    if fd is None:
+        return None
+    found = [a for a in ast.walk(fd) if isinstance(a, ast.Assign) and len(a.targets) == 1
+             and isinstance(a.targets[0], ast.Name) and a.targets[0].id == "mappers"]
+    if len(found) != 1 or not isinstance(found[0].value, ast.List):
+        return None
+    if not all(isinstance(e, ast.Name) for e in found[0].value.elts):
+        return None
+    return [e.id for e in found[0].value.elts]
+
+
 def generate(repo: Path, out: Path):
     funcs = []          # (name, FunctionDef, file)
     for rel, names in WHITELIST.items():
@@ -292,7 +322,7 @@ def generate(repo: Path, out: Path):
         if not progressed:
             order += pending
             break
-    srcs = sorted(WHITELIST)
+    srcs = sorted(set(WHITELIST) | {m[0] for m in MAPPER_LISTS})
     sha = hashlib.sha256(b"".join((repo / s).read_bytes() for s in srcs)).hexdigest()[:16]
     L = ["/- GENERATED by harness/translate/py2lean.py from /repo's working tree — do not edit.",
          f"   sources: {', '.join(srcs)}; sha256 {sha} -/",
@@ -310,6 +340,17 @@ def generate(repo: Path, out: Path):
             unsupported.append(f"{nm}: {e}")
             L.append(f"/-- `{rel}::{nm}` left the supported subset: {e} -/")
             L.append(f"def {nm}_unsupported : Unit := ()")
+        L.append("")
+    translated_ok = {nm for nm, _, _ in order} - {u.split(":")[0] for u in unsupported}
+    for rel, cls, fn, lean_name in MAPPER_LISTS:
+        names = mapper_list(repo / rel, cls, fn)
+        if names is None or any(n not in translated_ok and n not in HAND_MAPPERS for n in names):
+            unsupported.append(f"{lean_name}: mapper list of {rel}::{fn} not recognised ({names})")
+            L.append(f"/-- mapper list of `{rel}::{fn}` left the supported subset: {names} -/")
+            L.append(f"def {lean_name}_unsupported : Unit := ()")
+        else:
+            L.append(f"/-- the list assigned to `mappers` in `{rel}::{(cls + '.') if cls else ''}{fn}`, in order -/")
+            L.append(f"def {lean_name} : List (PyVal → PyM PyVal) := [{', '.join(names)}]")
         L.append("")
     L += ["end GeoVerif.Gen.Ui", ""]
     text = "\n".join(L)
